@@ -640,15 +640,18 @@ func (ob *SuObject) Hash() uint64 {
 		}
 	}
 	if 0 < ob.named.Size() && ob.named.Size() <= 4 {
+		// must not depend on the order of the named members
+		// since equal objects can have different orders
+		sum := uint64(0)
 		iter := ob.named.Iter()
 		for {
 			k, v, ok := iter()
 			if !ok {
 				break
 			}
-			hash = 31*hash + k.Hash2()
-			hash = 31*hash + v.Hash2()
+			sum += 31*k.Hash2() + v.Hash2()
 		}
+		hash = 31*hash + sum
 	}
 	return hash
 }
